@@ -10,7 +10,8 @@ import Nstd.Generated.Sha256Tables
   (copy loops, the `j`/`i` loops of `Transform`, `WriteByteBlock`, the byte loop of `update`,
   the padding loop of `finalize` with its wrap-around block, the length loop, the digest
   loop, `hmac`).  Loop counters that are plain array positions are `Nat`; array writes go
-  through the checked `wr` (an out-of-range write destroys the array instead of being dropped); `count` is the
+  through the checked `wr` (an out-of-range write destroys the array instead of being dropped), array reads
+  are recorded in the ghost flag `ok` (`inb`: the index was inside the array); `count` is the
   `uint64` of the code (the `count << 3` wrap is part of the model).
 -/
 namespace Nstd.Sha
@@ -21,6 +22,9 @@ structure Sha where
   state : List UInt32
   count : UInt64
   buffer : List UInt8
+  /-- ghost flag of the model: no array read executed on this object so far (state, buffer, the local
+  arrays of `Transform`) was out of range -/
+  ok : Bool
 deriving Repr, DecidableEq
 
 /-- `for (i = 0; i < 16; i++) { R(i); }` -/
@@ -35,15 +39,17 @@ termination_by 64 - j
 
 /-- `Transform(UInt32 *state, const UInt32 *data)` (the non-unrolled variant) started with the local
 array `W[16]` holding `w0` (it is uninitialised in C++): `T[j] = state[j]`, the 4 × 16 rounds over the
-rolling window, `state[j] += T[j]`. -/
-def transformFrom (w0 : List UInt32) (state data : List UInt32) : List UInt32 :=
+rolling window, `state[j] += T[j]`.  Second component: every array read (`state[j]`, `T[j]` of the two
+copy loops, and all reads of `T W K data` inside `R`) was in range. -/
+def transformFrom (w0 : List UInt32) (state data : List UInt32) : List UInt32 × Bool :=
   let T := (List.range 8).map fun j => state.getD j 0
-  let s := outerLoop data 0 { T := T, W := w0 }
-  (List.range 8).map fun j => state.getD j 0 + s.T.getD j 0
+  let s := outerLoop data 0 { T := T, W := w0, ok := (List.range 8).all fun j => inb state j }
+  ((List.range 8).map fun j => state.getD j 0 + s.T.getD j 0,
+   s.ok && (List.range 8).all fun j => inb state j && inb s.T j)
 
 /-- `Transform` as executed by the model driver: the uninitialised `W` is zeros (every cell is written
 by `blk0` before it is read: `transform_ignores_uninitialised_W` in Props.lean) -/
-def transform (state data : List UInt32) : List UInt32 :=
+def transform (state data : List UInt32) : List UInt32 × Bool :=
   transformFrom (List.replicate 16 0) state data
 
 /-- `data32[i] = (buffer[4i] << 24) + (buffer[4i+1] << 16) + (buffer[4i+2] << 8) + buffer[4i+3]` -/
@@ -54,17 +60,23 @@ def data32 (buffer : List UInt8) : List UInt32 :=
     ((buffer.getD (i * 4 + 2) 0).toUInt32 <<< 8) +
     ((buffer.getD (i * 4 + 3) 0).toUInt32)
 
+/-- the reads `p->buffer[i * 4 + k]` of `WriteByteBlock` are inside `buffer` -/
+def data32ok (buffer : List UInt8) : Bool :=
+  (List.range 16).all fun i =>
+    inb buffer (i * 4) && inb buffer (i * 4 + 1) && inb buffer (i * 4 + 2) && inb buffer (i * 4 + 3)
+
 /-- `WriteByteBlock(p)` -/
 def writeByteBlock (p : Sha) : Sha :=
-  { p with state := transform p.state (data32 p.buffer) }
+  let t := transform p.state (data32 p.buffer)
+  { p with state := t.1, ok := p.ok && data32ok p.buffer && t.2 }
 
-/-- `Sha256::reset()`; the buffer is left as it is -/
+/-- `Sha256::reset()`; the buffer is left as it is (and so is the ghost flag `ok`) -/
 def reset (p : Sha) : Sha :=
   { p with state := H0, count := count0 }
 
 /-- a freshly constructed hasher (`Sha256() {reset();}`); the buffer content is indeterminate in
 C++, zeros here (it is never read before it is written) -/
-def init : Sha := reset { state := [], count := 0, buffer := List.replicate 64 0 }
+def init : Sha := reset { state := [], count := 0, buffer := List.replicate 64 0, ok := true }
 
 /-- the `while (size > 0)` loop of `update` -/
 def updateLoop : List UInt8 → Nat → Sha → Sha
@@ -113,7 +125,7 @@ def finalize (p : Sha) : List UInt8 × Sha :=
   let r := padLoop (cur + 1) p
   let p := { r.2 with buffer := lenLoop 8 r.1 lenInBits r.2.buffer }
   let p := writeByteBlock p
-  (digestOf p.state, reset p)
+  (digestOf p.state, reset { p with ok := p.ok && (List.range 8).all fun i => inb p.state i })
 
 /-- `Sha256::hash(data, size, result)` -/
 def hash (data : List UInt8) : List UInt8 :=
@@ -122,8 +134,9 @@ def hash (data : List UInt8) : List UInt8 :=
 /-- `Sha256::hmac(key, keySize, message, messageSize, result)`; one hasher object is used for
 the key digest, the inner and the outer pass (it is reset by each `finalize`).  `blockSize`,
 `digestSize` and the two pad bytes are the generated constants of the header; `32`/`64` are the
-literals the code uses (`Memory::zero(hashKey + 32, 32)`, `for(int i = 0; i < 64; ++i)`). -/
-def hmac (key message : List UInt8) : List UInt8 :=
+literals the code uses (`Memory::zero(hashKey + 32, 32)`, `for(int i = 0; i < 64; ++i)`).
+Second component: no array read (inside the hasher, and `hashKey[i]`) was out of range. -/
+def hmac (key message : List UInt8) : List UInt8 × Bool :=
   let sha := init
   let k : Sha × List UInt8 :=
     if key.length > blockSize then
@@ -140,6 +153,7 @@ def hmac (key message : List UInt8) : List UInt8 :=
   let f := finalize sha
   let sha := update f.2 oKeyPad
   let sha := update sha f.1
-  (finalize sha).1
+  let g := finalize sha
+  (g.1, g.2.ok && (List.range 64).all fun i => inb hashKey i)
 
 end Nstd.Sha
